@@ -130,7 +130,7 @@ def run_config(fun, cfg, gen, pi, direct_fx, want_steps=False):
     import numdifftools.finite_difference as fdm
     method, n, order = cfg
     fw.fresh_library_state()
-    res = dict(status='ok')
+    res = dict(status='ok', x=pi.x)
     try:
         with warnings.catch_warnings():
             warnings.simplefilter('ignore')
